@@ -425,10 +425,34 @@ def _oracle(c):
             return "repr evaluates to a %s" % type(v).__name__
         if eff_cells_value(v) != wire.eff_cells_of_chunks(c["f"]):
             return "repr evaluates to different characters/formatting: %r vs %r" % (eff_cells_value(v), wire.eff_cells_of_chunks(c["f"]))
-        # ... and to an EQUAL value in the library's own sense (same terminal string, hence same hash): this also sees
-        # empty formatted runs, which show no character
-        if str(v) != str(f) or not (v == f) or not (f == v) or hash(v) != hash(f):
-            return "eval(repr(f)) is not equal to f: terminal strings %r vs %r" % (str(v), str(f))
+        # ... and to an EQUAL value in the library's own sense (same terminal string, hence same hash).  Empty formatted
+        # runs show no character: the evaluated value may lack some of them (an empty run need not be constructible
+        # through the helpers), but it must not carry an empty run (formatted or plain) that f does not have at that place, and it must equal f taken
+        # without the runs it lacks
+        def empties(chunks):
+            out, pos = [], 0
+            for t, a in chunks:
+                if t == "":
+                    out.append((pos, wire.eff(a)))     # formatted or not: (place, effective attributes)
+                pos += len(t)
+            return out
+        have = empties(c["f"])
+        got_e = empties(wire.fmt_chunks(v)) if isinstance(v, FmtStr) else []
+        left = list(have)
+        for e in got_e:
+            if e not in left:
+                return "eval(repr(f)) carries an empty run %r that f does not have there (f's empty runs: %r)" % (e, have)
+            left.remove(e)
+        kept, pos, drop = [], 0, list(left)
+        for t, a in c["f"]:
+            if t == "" and (pos, wire.eff(a)) in drop:
+                drop.remove((pos, wire.eff(a)))
+            else:
+                kept.append((t, a))
+            pos += len(t)
+        ref = mk_fmt(kept) if left else f
+        if str(v) != str(ref) or not (v == ref) or not (ref == v) or hash(v) != hash(ref):
+            return "eval(repr(f)) is not equal to f: terminal strings %r vs %r" % (str(v), str(ref))
         return None
     raise KeyError(op)
 
